@@ -243,8 +243,20 @@ theorem order_sites_key_kinds :
   refine ⟨by decide +kernel, by decide +kernel, by decide +kernel⟩
 
 /-- the probe sequence of every key (`PS.start`, `PS.next`: the states `look`/`addScan`/`lookEmpty` walk through) stays
-inside a table of `mask + 1` slots: the model can only fail by running out of fuel, never by indexing outside the table -/
+inside a table of `mask + 1` slots: the model never indexes outside the table -/
 theorem set_probe_stays_in_table (mask : Nat) (k : Int) (n : Nat) : (PS.nth mask k n).idx ≤ mask :=
   PS.idx_le (PS.nth_valid mask k n)
+
+/-- the exact class `set_history_refines_partial` leaves out: in a table of `mask + 1` slots the lookup of `k` is
+undefined only if every one of the first `fuelFor mask = 10·(mask + 15)` slots of `k`'s probe sequence holds a dummy or
+another key (CPython would keep probing; with `fill < size` it cannot happen once the sequence has covered the table) -/
+theorem set_lookup_fails_only_by_fuel (t : Array Slot) (k : Int) (hs : t.size = (t.size - 1) + 1)
+    (h : lookup t k = none) (m : Nat) (hm : m < fuelFor (t.size - 1)) :
+    t[(PS.nth (t.size - 1) k m).idx]? = some Slot.dummy ∨
+      ∃ k', k' ≠ k ∧ t[(PS.nth (t.size - 1) k m).idx]? = some (Slot.active k') := by
+  have := look_none_only_by_fuel (k := k) hs (fuelFor (t.size - 1)) 0 h m hm
+  simpa using this
+
+example : (emptyTable 8).size = ((emptyTable 8).size - 1) + 1 := by decide
 
 end ChythonModel.Props.C19
